@@ -192,4 +192,156 @@ theorem refine_callsC (P : Program) (nm : List String → String) (O : Oracle) (
 
 end callsC
 
+/-! ## the call graph -/
+
+section graphC
+variable (P : Program) (hw : WellTypedT P) (F : Nat) (hF : NarrowFix P.table F)
+  (nm : List String → String) (O : Oracle) (ρ : Store) (hρ : StoreExt ρ)
+include hw hF hρ
+
+theorem refine_callableC :
+    ∀ (fuel : Nat) (callee : String) (path : List String) (forks : List (String × Idx))
+      (dims : List (String × List Idx)) (args : J) (cins : RBMap),
+      dims.map (·.1) = forks.map (·.1) →
+      ArgsRelC P.table F ρ forks (P.insOf callee) args cins → (∃ f, Agree forks f) →
+      (∀ n ∈ flattenTList dims (staticCallableT P nm fuel callee path cins).2, StoreAtNode nm O ρ n) →
+      treeOkList (forks.map (·.1)) (staticCallableT P nm fuel callee path cins).2 = true →
+      GoodC P.table F ρ forks callee (runCallable P O F fuel callee path forks args)
+        (staticCallableT P nm fuel callee path cins) := by
+  intro fuel
+  induction fuel with
+  | zero =>
+    intro callee path forks dims args cins _ _ _ _ _
+    simp only [runCallable, staticCallableT, GoodC, evalRT, instsTList]
+    exact ⟨fun _ _ => trivial, HasTyR_null _ _, fun _ _ => trivial⟩
+  | succ fuel ih =>
+    intro callee path forks dims args cins hal hargs hex hstore htree
+    simp only [runCallable, staticCallableT] at hstore htree ⊢
+    cases hl : P.callables.lookup callee with
+    | none =>
+      simp only [GoodC, evalRT, instsTList]
+      exact ⟨fun _ _ => trivial, HasTyR_null _ _, fun _ _ => trivial⟩
+    | some cb =>
+      cases cb with
+      | stage sins souts =>
+        simp only [hl] at hstore
+        have hs := hstore { path := path, callee := callee, inputs := cins, forks := dims }
+          (by simp [flattenTList, flattenT])
+        refine ⟨?_, ?_, ?_⟩
+        · intro f hf
+          simp only [evalRT, projPath]
+          have := hs f
+          simp only [key_of_agree f dims forks hal hf] at this
+          rw [this]
+        · simp only [HasTyR, pathTy]
+          exact Sub.refl _
+        · intro f hf
+          obtain ⟨g, hc, ha, _⟩ := hargs
+          simp only [instsTList, instsT, List.append_nil, runtimeArgs, hc, ha f hf, List.map_map,
+            List.cons.injEq, and_true]
+          rfl
+      | pipeline pins outs calls ret =>
+        simp only [hl] at hstore htree
+        have hins : P.insOf callee = pins := by simp [Program.insOf, hl, Callable.ins]
+        rw [hins] at hargs
+        obtain ⟨hcalls, hret⟩ := hw.pipelines callee pins outs calls ret hl
+        have htab := hw.outsOf callee _ hl
+        simp only [Callable.outs] at htab
+        have hn := hw.structs _ _ htab
+        have hinit := envRel_initC P.table F ρ forks pins args cins hargs
+        obtain ⟨f0, hf0⟩ := hex
+        have hcs := refine_callsC P.table hw.structs F hF ρ hρ P nm O (runCallable P O F fuel)
+          (staticCallableT P nm fuel) path forks dims cins (selfTyOf pins) hal ih
+          calls ⟨pins, args, []⟩ [] [] [] hinit rfl (by simpa [typesOf] using hcalls)
+          (fun _ _ => by simp [instsTList]) ⟨f0, hf0⟩ hstore htree
+        obtain ⟨hrel, hself, htypes, hinst⟩ := hcs
+        simp only
+        generalize evalCalls P.table F P.insOf (runCallable P O F fuel) path forks calls ⟨pins, args, []⟩ [] = R
+          at hrel hself htypes hinst
+        generalize staticCallsT P.table P.insOf (staticCallableT P nm fuel) path cins calls [] [] = S
+          at hrel hinst
+        have hsT : R.1.selfTy = selfTyOf pins := by rw [selfTy_eq, hself]
+        have hcT : R.1.callTy = callTyOf (callTypesM calls) := by
+          rw [callTy_typesOf, htypes]; simp [typesOf]
+        have key : ∀ p ∈ outs,
+            (∀ f, Agree forks f → narrow P.table F p.ty (match ret.lookup p.name with
+              | some e => eval P.table R.1 e
+              | none => .null)
+              = evalRT P.table F ρ f p.ty (match ret.lookup p.name with
+                | some e => filterT P.table p.ty (resolveRefs cins S.1 e)
+                | none => .lit .null)) ∧
+            HasTyR P.table p.ty (match ret.lookup p.name with
+                | some e => filterT P.table p.ty (resolveRefs cins S.1 e)
+                | none => .lit .null) := by
+          intro p hp
+          cases he : ret.lookup p.name with
+          | none => exact ⟨fun f _ => by simp [narrow_null hF, evalRT], HasTyR_null _ _⟩
+          | some e =>
+            have hty := hret p hp e he
+            rw [← hsT, ← hcT] at hty
+            exact ⟨fun f hf => (eval_resolveExpT P.table hw.structs F hF ρ _ R.1 cins S.1 hrel f hf e p.ty hty).1,
+              (eval_resolveExpT P.table hw.structs F hF ρ _ R.1 cins S.1 hrel f0 hf0 e p.ty hty).2⟩
+        have c2 : ((0 : Nat) == 0 && (0 : Nat) != 0) = false := by decide
+        refine ⟨?_, ?_, hinst⟩
+        · intro f hf
+          simp only [evalRT, c2, Bool.false_eq_true, if_false, htab, J.obj.injEq]
+          apply List.map_congr_left
+          intro p hp
+          simp only [Prod.mk.injEq, true_and]
+          rw [lookup_evalRTMembers, lookup_map_find, find_name_of_nodup outs hn p hp,
+            memberTy_find outs p.name p (find_name_of_nodup outs hn p hp)]
+          exact (key p hp).1 f hf
+        · simp only [HasTyR]
+          refine ⟨trivial, trivial, outs, htab, ?_, ?_⟩
+          · apply HasTyRMembers_of_mem
+            intro k e hke _
+            simp only [List.mem_map, Prod.mk.injEq] at hke
+            obtain ⟨p, hp, hk, he⟩ := hke
+            subst hk; subst he
+            rw [memberTy_find outs p.name p (find_name_of_nodup outs hn p hp)]
+            exact (key p hp).2
+          · intro p hp
+            rw [lookup_map_find, find_name_of_nodup outs hn p hp]
+            rfl
+
+/-- THE REFINEMENT with mapped pipelines and nested map calls of statically known size (array mode) -/
+theorem twoPhaseT_eq_den_F
+    (hstore : ∀ n ∈ flattenTList [] (staticProgramT P nm).2, StoreAtNode nm O ρ n)
+    (hok : treeOkList [] (staticProgramT P nm).2 = true) :
+    runCallable P O F P.fuel P.top.callee [P.top.id] []
+        (mkArgs P.table F (argVals P.table ⟨[], .null, []⟩ (P.insOf P.top.callee) P.top) none)
+      = ((evalRT P.table F ρ [] ⟨P.top.callee, 0, 0⟩ (staticProgramT P nm).1.exp),
+         instsTList P.table F ρ [] [] (staticProgramT P nm).2) := by
+  have henv : EnvRel P.table F ρ (Agree []) ⟨[], .null, []⟩ [] [] := by
+    refine ⟨?_, ?_, ?_⟩
+    · intro p; simp [Env.selfTy, σexp, HasTyR_null, evalRT, J.field]
+    · intro c; simp [Env.callTy, Env.callVal, σexp, HasTyR_null, evalRT]
+    · intro c; rfl
+  have htop : CallOk P.table P.insOf (Env.selfTy ⟨[], .null, []⟩) (Env.callTy ⟨[], .null, []⟩) P.top := by
+    rw [selfTy_eq, callTy_typesOf]
+    exact hw.top.1
+  have hargs := args_stepC P.table hw.structs F hF ρ P.insOf [] ⟨[], .null, []⟩ [] [] henv P.top htop hw.top.2
+    [] (Agree.nil [])
+  have := refine_callableC P hw F hF nm O ρ hρ P.fuel P.top.callee [P.top.id] [] [] _ _ rfl hargs
+    ⟨[], Agree.nil []⟩ hstore hok
+  obtain ⟨g1, _, g3⟩ := this
+  exact Prod.ext (g1 [] (Agree.nil [])) (g3 [] (Agree.nil []))
+
+end graphC
+
+/-- the store built from the oracle and the nodes reads fork assignments through lookups only -/
+theorem storeOfNodes_ext (nm : List String → String) (nodes : List SNode) (O : Oracle) :
+    StoreExt (storeOfNodes nm nodes O) := by
+  intro node f g h
+  refine ⟨?_, fun _ => rfl⟩
+  simp only [storeOfNodes]
+  cases nodes.find? (fun n => nm n.path == node) with
+  | none => rfl
+  | some n =>
+    simp only
+    congr 3
+    apply List.map_congr_left
+    intro d _
+    rw [h d.1]
+
 end Proofs.ResolverStatic
